@@ -9,8 +9,10 @@ Valid(api, form, m, i) ==
     /\ api = "lib" => form # "dir" /\ m # "default"
     /\ api = "cli" => form \in {"paths", "dir"}
     /\ form = "literal" => i # "missing_source"
-Plans == {p \in [api : Apis, backend : Backends, srcform : SrcForms, mode : {mode}, dest : {dest}, input : {input}] :
-            Valid(p.api, p.srcform, mode, input)}
+\* a formatter in reach concerns the rasn backend only; staged for the destinations that take the text and for one that does not
+FmtValid(p) == p.fmt # "absent" => (p.backend = "rasn" /\ p.dest \in {"absent", "other_long", "readonly", "dir_other", "na", "stdout_full"})
+Plans == {p \in [api : Apis, backend : Backends, srcform : SrcForms, mode : {mode}, dest : {dest}, input : {input}, fmt : {fmt}] :
+            Valid(p.api, p.srcform, mode, input) /\ FmtValid(p)}
 \* (one print per scenario: the text's shape is not the harness's to choose, it records the shape it meets)
 EmitPlans == (pc = "start" /\ shape = "ends_in_newline") => \A p \in Plans : PrintT(<<"CASE", ToJson(p)>>)
 =============================================================================
